@@ -190,9 +190,17 @@ def run(chk):
             chk.count("sentinel" if sentinel else "regular", 1)
 
         # ---- file-backed PT-TEMPO vs in-memory (same float operations) ----------
-        for j in range(3 if thorough else 1):
-            corr = oqupy.PowerLawSD(alpha=0.1 + 0.1 * j, zeta=1, cutoff=3.0, cutoff_type="exponential", temperature=0.2 * j)
-            op = [oqupy.operators.sigma("z"), oqupy.operators.sigma("x") + 0.3 * oqupy.operators.sigma("z"), oqupy.operators.sigma("z")][j % 3]
+        sx_, sy_, sz_ = (oqupy.operators.sigma(a) for a in "xyz")
+        for j in range(6 if thorough else 3):
+            corr = oqupy.PowerLawSD(alpha=0.1 + 0.1 * (j % 3), zeta=1, cutoff=3.0, cutoff_type="exponential", temperature=0.2 * (j % 3))
+            # diagonal (no transforms), complex eigenbasis, real non-diagonal eigenbasis, generic Hermitian 3x3, ...
+            if j % 6 == 3:
+                z = np.array([[rng.gauss(0, 1) + 1j * rng.gauss(0, 1) for _ in range(3)] for _ in range(3)])
+                q, _ = np.linalg.qr(z)
+                op = q @ np.diag([1.0, 0.0, -0.5]) @ q.conj().T
+                op = (op + op.conj().T)
+            else:
+                op = [sz_, 0.6 * sx_ + 0.8 * sy_, sx_ + 0.3 * sz_, None, sy_ + 0.2 * sz_, sz_][j % 6]
             bath = oqupy.Bath(0.5 * op, corr)
             par = oqupy.TempoParameters(dt=0.1, epsrel=1e-6, dkmax=3)  # tolerance below: 1e3*epsrel
             fn = os.path.join(tmp, f"tempo_{j}.hdf5")
@@ -202,13 +210,19 @@ def run(chk):
             # The two computations are separate numerical runs: tensors may differ by an SVD gauge /
             # truncation-level amount, so compare gauge-invariant content: metadata and the dynamics
             # both process tensors produce for a test system (tolerance 1e3 * epsrel).
-            sysm = oqupy.System(0.7 * oqupy.operators.sigma("x") + 0.2 * oqupy.operators.sigma("z"))
-            rho0 = oqupy.operators.spin_dm("x+")
+            dd = op.shape[0]
+            hh = np.array([[rng.gauss(0, 1) + 1j * rng.gauss(0, 1) for _ in range(dd)] for _ in range(dd)])
+            sysm = oqupy.System((hh + hh.conj().T) / 3)
+            rr = hh @ hh.conj().T
+            rho0 = rr / np.trace(rr)
             dm = quiet(oqupy.compute_dynamics, sysm, initial_state=rho0, process_tensor=mem, progress_type="silent")
             df = quiet(oqupy.compute_dynamics, sysm, initial_state=rho0, process_tensor=fil, progress_type="silent")
             same = (len(mem) == len(fil) and mem.dt == fil.dt
                     and (mem.transform_in is None) == (fil.transform_in is None)
                     and (mem.transform_in is None or np.allclose(mem.transform_in, fil.transform_in, atol=1e-12))
+                    and (mem.transform_out is None) == (fil.transform_out is None)
+                    and (mem.transform_out is None or np.allclose(mem.transform_out, fil.transform_out, atol=1e-12))
+                    and mem.hilbert_space_dimension == fil.hilbert_space_dimension
                     and np.allclose(np.array(dm.states), np.array(df.states), rtol=0, atol=1e-3))
             if not same:
                 chk.fail("file-backed-pttempo-differs", "PT-TEMPO writing to a file differs from the in-memory computation "
